@@ -101,6 +101,14 @@ type Options struct {
 	TraceSolver bool
 	Verbose     bool
 	MaxViol     int // stop collecting after this many violations per label
+	Solver      string // "z3" (default, /usr/bin/z3 4.8.12), "z3-new" (5.1.0) or "cvc5": used by `symgo crosscheck`
+}
+
+func (o Options) solverKind() string {
+	if o.Solver == "" {
+		return "z3"
+	}
+	return o.Solver
 }
 
 // Result aggregates what an exploration covered.
@@ -198,7 +206,7 @@ func (w *Worker) check(extra *sym.Term, model []*sym.Term) (sym.Result, sym.Mode
 		if w.solver != nil {
 			// restart a dead solver
 			w.solver.Close()
-			s, e2 := sym.Start("z3", false, w.eng.Opt.SolverTO)
+			s, e2 := sym.Start(w.eng.Opt.solverKind(), false, w.eng.Opt.SolverTO)
 			if e2 == nil {
 				w.mergeStats(w.solver)
 				w.solver = s
@@ -796,7 +804,7 @@ func Explore(pkg *ssa.Package, fn *ssa.Function, opt Options) *Result {
 func newWorker(e *Engine, id int) *Worker {
 	w := &Worker{eng: e, id: id, c: sym.NewCtx(), cov: map[*ssa.Function]map[ssa.Instruction]bool{}, stubs: map[string]int{}}
 	if e.Opt.Concrete == nil {
-		s, err := sym.Start("z3", false, e.Opt.SolverTO)
+		s, err := sym.Start(e.Opt.solverKind(), false, e.Opt.SolverTO)
 		if err != nil {
 			panic(err)
 		}
